@@ -60,9 +60,10 @@ type scenario struct {
 	K       *kindSpec
 	Name    string
 	Threads []threadSpec
-	Bound   int  // preemption bound, -1 = complete space
-	Glue    bool // operations on request-private keys take no scheduling point of their own (see vstore.gluePrivate)
-	Big     bool // explored by all shards together (level-1 subtrees dealt round-robin)
+	Bound   int       // preemption bound, -1 = complete space
+	Glue    bool      // operations on request-private keys take no scheduling point of their own (see vstore.gluePrivate)
+	Faults  []faultAt // environment answers: these store operations are answered with a generic store error
+	Big     bool      // explored by all shards together (level-1 subtrees dealt round-robin)
 }
 
 type replayCase struct {
@@ -73,6 +74,7 @@ type replayCase struct {
 	First    string         `json:"first_at,omitempty"`
 	Replay   string         `json:"replay_at,omitempty"`
 	Requests map[string]any `json:"requests,omitempty"`
+	Faults   []faultAt      `json:"faults,omitempty"`
 }
 
 type harness struct {
@@ -252,6 +254,11 @@ func (h *harness) judge(sc *scenario, x *sched.Exec, st *vstore, out []response,
 	if len(tids) != len(ops) {
 		return verdict{}, fmt.Errorf("%d scheduled operations but %d logged", len(tids), len(ops))
 	}
+	for i, o := range ops {
+		if o.Who != tids[i] { // two independent attributions (the scheduler's trace, the wrapper's baton tracking) must agree
+			return verdict{}, fmt.Errorf("operation %d (%s %s): trace says thread %d, store wrapper says %d", i, o.Op, st.name(o.Key), tids[i], o.Who)
+		}
+	}
 	// the independence argument behind glued operations: their keys are private to one request
 	owner := map[string]int{}
 	for i, o := range ops {
@@ -286,7 +293,7 @@ func (h *harness) judge(sc *scenario, x *sched.Exec, st *vstore, out []response,
 	// first burning operation (delete for take-once secrets, set for remember-as-used secrets) on it?
 	firstBurn := len(ops)
 	for i, o := range ops {
-		if o.Key == sc.K.Secret && o.Op == sc.K.Burn {
+		if o.Key == sc.K.Secret && o.Op == sc.K.Burn && o.Fault != 1 { // a burn that took effect
 			firstBurn = i
 			break
 		}
@@ -314,7 +321,7 @@ func (h *harness) judge(sc *scenario, x *sched.Exec, st *vstore, out []response,
 		tight := false
 		for i := read + 1; i < len(ops); i++ {
 			if tids[i] == s {
-				tight = ops[i].Key == sc.K.Secret && ops[i].Op == sc.K.Burn
+				tight = ops[i].Key == sc.K.Secret && ops[i].Op == sc.K.Burn && ops[i].Fault != 1
 				break
 			}
 		}
@@ -325,7 +332,35 @@ func (h *harness) judge(sc *scenario, x *sched.Exec, st *vstore, out []response,
 	v.Sig = "C05|" + sc.K.Sig + "|concurrent|" + shape
 	v.What = fmt.Sprintf("%s: %d of %d concurrent requests presenting the same secret succeeded (%s); schedule %v", sc.Name,
 		len(v.Successes), len(sc.Threads), shape, x.Choices())
+	// A store error answered to one of the operations: the plain window (every winner read before the first burn, the
+	// burn directly follows the read) is the mechanism of the known findings whether or not an error was answered
+	// somewhere; any other shape in an execution with an answered error is attributed to the error.
+	if desc := faultDesc(sc.K, ops); desc != "" && shape != "reads-before-first-"+sc.K.Burn {
+		v.Sig = "C05|" + sc.K.Sig + "|store-fault|" + desc + "|concurrent|" + shape
+		v.What = fmt.Sprintf("%s: %d of %d concurrent requests presenting the same secret succeeded although the store answered %s (%s); schedule %v",
+			sc.Name, len(v.Successes), len(sc.Threads), desc, shape, x.Choices())
+	}
 	return v, nil
+}
+
+// faultDesc names the store errors that were answered in a run, in order: "<op>-error" (the operation did not take
+// effect) or "<op>-error-applied" (it did), "@other" when the key is not the secret under test.
+func faultDesc(k *kindSpec, ops []opRec) string {
+	var parts []string
+	for _, o := range ops {
+		if o.Fault == 0 {
+			continue
+		}
+		p := o.Op + "-error"
+		if o.Fault == 2 {
+			p += "-applied"
+		}
+		if o.Key != k.Secret {
+			p += "@other"
+		}
+		parts = append(parts, p)
+	}
+	return strings.Join(parts, "+")
 }
 
 func (h *harness) runSchedule(sc *scenario, o sched.Options, each func(x *sched.Exec, st *vstore, out []response)) sched.Result {
@@ -333,14 +368,14 @@ func (h *harness) runSchedule(sc *scenario, o sched.Options, each func(x *sched.
 	return sched.Explore(o, func(x *sched.Exec) func(*sched.Exec) {
 		st := w.fresh(sc.K.Alias)
 		sc.K.Seed()
-		st.runFrom = len(st.log)
+		st.begin(sc.Faults)
 		st.gluePrivate = sc.Glue
 		st.zeroOps = make([]bool, len(sc.Threads))
 		out := make([]response, len(sc.Threads))
 		for i, th := range sc.Threads {
 			i, th := i, th
 			x.Go(th.Name, func() {
-				st.skipPoint = true
+				st.skipPoint, st.cur = true, i
 				out[i] = w.do(th.Req)
 				// still set: the request performed no store operation at all (it ran from start to end in one step)
 				st.zeroOps[i] = st.skipPoint
@@ -382,8 +417,15 @@ func (h *harness) explore(sc *scenario, replay []int) {
 			h.t.Fatalf("harness: %s: %v", sc.Name, err)
 		}
 		steps += int64(len(x.Trace))
-		r.Eval(sc.Name + fmt.Sprint(x.Choices()))
 		oc := fmt.Sprintf("%s:%d-of-%d-succeed", sc.K.Kind, len(v.Successes), len(sc.Threads))
+		if len(sc.Faults) == 0 {
+			r.Eval(sc.Name + fmt.Sprint(x.Choices()))
+		} else if desc := faultDesc(sc.K, st.managedOps()); desc != "" {
+			r.Eval(sc.Name + fmt.Sprint(x.Choices()))
+			oc = fmt.Sprintf("%s:store-fault:%d-of-%d-succeed", sc.K.Kind, len(v.Successes), len(sc.Threads))
+		} else {
+			r.Eval("") // the operation to be answered with an error was never reached on this schedule: same as without it
+		}
 		outcomes[oc]++
 		r.Outcome(oc)
 		honest := true
@@ -394,7 +436,7 @@ func (h *harness) explore(sc *scenario, replay []int) {
 					"status": out[i].Status, "body": clip(out[i].Body)})
 			}
 		}
-		if honest && len(v.Successes) == 0 && zeroSuccess == "" {
+		if honest && len(sc.Faults) == 0 && len(v.Successes) == 0 && zeroSuccess == "" {
 			zeroSuccess = fmt.Sprintf("schedule %v: statuses %v, first body %s", x.Choices(), v.Statuses, clip(out[0].Body))
 		}
 		if len(outcomes) <= 3 && outcomes[oc] == 1 {
@@ -411,7 +453,7 @@ func (h *harness) explore(sc *scenario, replay []int) {
 				h.t.Fatalf("harness: %s: schedule %v is not reproducible (%v/%q then %v/%q)", sc.Name, x.Choices(), v.Statuses, v.Sig,
 					again.Statuses, again.Sig)
 			}
-			r.Violation(v.Sig, v.What, replayCase{Item: sc.Name, Schedule: x.Choices(), Trace: x.Trace, Status: v.Statuses})
+			r.Violation(v.Sig, v.What, replayCase{Item: sc.Name, Schedule: x.Choices(), Trace: x.Trace, Status: v.Statuses, Faults: sc.Faults})
 		}
 	})
 	if len(res.Errors) > 0 {
@@ -537,6 +579,180 @@ func (h *harness) refusedBeforeHandler(k *kindSpec) {
 		h.r.Observation("code-after-request-refused-before-grant-handler|"+c.name,
 			map[string]any{"first_status": bad.Status, "code_redeemable_afterwards": k.OK(good)})
 	}
+}
+
+// ------------------------------------------------------------------ environment answers: store errors ("deviations")
+
+// The in-memory store never fails; Redis / memcached do (time-out, reset connection, fail-over). The bottom store
+// wrapper can answer any Get / Set / Delete with a generic store error (not "not found"), either without performing the
+// operation or - for writes - after performing it. Deviation bound: 1 answered error per run in the quick tier (every
+// position of every store operation of every request), 2 in the thorough tier. The oracle stays the statement: among
+// requests presenting the same value at most one SUCCEEDS. A request that fails because the store failed is fine.
+
+func modesFor(op string) []bool {
+	if op == "get" {
+		return []bool{false}
+	}
+	return []bool{false, true}
+}
+
+// probeOps: the store operations of one honest request on a fresh store (positions and kinds for the concurrent universe).
+func (h *harness) probeOps(k *kindSpec) []opRec {
+	st := h.w.fresh(k.Alias)
+	k.Seed()
+	st.begin(nil)
+	h.w.do(k.Good)
+	return append([]opRec{}, st.managedOps()...)
+}
+
+func faultName(fs []faultAt) string {
+	var parts []string
+	for _, f := range fs {
+		p := fmt.Sprintf("t%d.op%d", f.Who, f.N)
+		if f.Applied {
+			p += ".applied"
+		}
+		parts = append(parts, p)
+	}
+	return strings.Join(parts, "+")
+}
+
+// faultScenarios: the 2-request scenario of every kind, explored completely once per set of answered errors. An error
+// is placed by (thread, number of the thread's operation); where a schedule never reaches that operation the run equals
+// the one without it (counted as trivial).
+func (h *harness) faultScenarios(ks map[string]*kindSpec) []*scenario {
+	var out []*scenario
+	depth := 1
+	if h.r.Thorough() {
+		depth = 2
+	}
+	for _, kn := range kindOrder {
+		k := ks[kn]
+		probe := h.probeOps(k)
+		var universe []faultAt
+		for t := 0; t < 2; t++ {
+			for n, o := range probe {
+				for _, applied := range modesFor(o.Op) {
+					universe = append(universe, faultAt{Who: t, N: n, Applied: applied})
+				}
+			}
+		}
+		var sets [][]faultAt
+		for i, a := range universe {
+			sets = append(sets, []faultAt{a})
+			if depth >= 2 {
+				for _, b := range universe[i+1:] {
+					if a.Who != b.Who || a.N != b.N {
+						sets = append(sets, []faultAt{a, b})
+					}
+				}
+			}
+		}
+		for _, fs := range sets {
+			out = append(out, &scenario{K: k, Name: "fault/" + kn + "/2same/" + faultName(fs), Threads: same(k, 2), Bound: -1, Faults: fs})
+		}
+	}
+	return out
+}
+
+type seqStep struct {
+	Name string
+	Req  reqSpec
+}
+
+func (h *harness) runSeq(k *kindSpec, steps []seqStep, faults []faultAt) ([]response, *vstore) {
+	st := h.w.fresh(k.Alias)
+	k.Seed()
+	st.begin(faults)
+	var out []response
+	for i, sp := range steps {
+		st.cur = i
+		out = append(out, h.w.do(sp.Req))
+	}
+	return out, st
+}
+
+// faultSequence enumerates, for one sequence of requests that all present the same secret, every placement of up to
+// `depth` answered errors: the run so far tells which operations exist after the last placed error.
+func (h *harness) faultSequence(k *kindSpec, name string, steps []seqStep, depth int) {
+	r := h.r
+	runs := 0
+	var rec func(faults []faultAt, from int, left int)
+	rec = func(faults []faultAt, from int, left int) {
+		if r.Expired() {
+			return
+		}
+		out, st := h.runSeq(k, steps, faults)
+		ops := st.managedOps()
+		if len(faults) > 0 {
+			runs++
+			h.judgeSeqFault(k, name, steps, faults, out, ops)
+		}
+		if left == 0 {
+			return
+		}
+		for i := from; i < len(ops); i++ {
+			for _, applied := range modesFor(ops[i].Op) {
+				rec(append(append([]faultAt{}, faults...), faultAt{Who: -1, N: i, Applied: applied}), i+1, left-1)
+			}
+		}
+	}
+	rec(nil, 0, depth)
+	r.Bound(name, fmt.Sprintf("<=%d answered store errors per run, %d runs", depth, runs))
+}
+
+func (h *harness) judgeSeqFault(k *kindSpec, name string, steps []seqStep, faults []faultAt, out []response, ops []opRec) {
+	r := h.r
+	desc := faultDesc(k, ops)
+	var status []int
+	var okAt []int
+	for i := range out {
+		status = append(status, out[i].Status)
+		if k.OK(out[i]) {
+			okAt = append(okAt, i)
+		}
+	}
+	r.Eval(name + "|" + faultName(faults))
+	r.Transitions(int64(len(ops)))
+	r.Outcome(fmt.Sprintf("%s:store-fault:sequential:%d-of-%d-succeed", k.Kind, len(okAt), len(out)))
+	rc := replayCase{Item: name, Faults: faults, Status: status}
+	if len(okAt) >= 2 {
+		// believe it only when it reproduces
+		out2, _ := h.runSeq(k, steps, faults)
+		for i := range out2 {
+			if out2[i].Status != out[i].Status {
+				h.t.Fatalf("harness: %s: run with %s is not reproducible", name, faultName(faults))
+			}
+		}
+		r.Violation("C05|"+k.Sig+"|store-fault|"+desc+"|replay-accepted",
+			fmt.Sprintf("%s: requests %v of %d sequential requests presenting the same secret all succeeded when the store answered %s (statuses %v)",
+				name, okAt, len(out), desc, status), rc)
+		return
+	}
+	if k.Kind != "code" || len(okAt) == 0 {
+		return
+	}
+	// authorization code: dead after any failed redemption attempt. A request that failed before the one that succeeded:
+	j := okAt[0]
+	if j == 0 {
+		return
+	}
+	// when a Delete of the code itself was answered with an error and did not take effect, the environment - not the
+	// handler - kept the code alive: ambiguous under the statement, recorded as an observation only
+	prevented := false
+	for _, o := range ops {
+		if o.Who < j && o.Key == k.Secret && o.Op == "del" && o.Fault == 1 {
+			prevented = true
+		}
+	}
+	if prevented {
+		r.Observation("code-alive-after-failed-attempt-whose-delete-was-answered-with-an-error|"+desc,
+			map[string]any{"item": name, "faults": faults, "status": status})
+		return
+	}
+	r.Violation("C05|code|store-fault|"+desc+"|failed-attempt|code-still-redeemable",
+		fmt.Sprintf("%s: a redemption attempt failed (statuses %v) while the store answered %s - no Delete of the code was refused - and the code was redeemed afterwards",
+			name, status, desc), rc)
 }
 
 // ------------------------------------------------------------------ boundary-instant replays (virtual time)
@@ -757,7 +973,23 @@ func TestVerifC05(t *testing.T) {
 	r.Assume("jwx's built-in clock (dpop.Parse) is the wall clock: it only bounds iat from below and every proof is minted at t0 <= wall clock")
 
 	var items []item
-	for _, sc := range h.scenarios(ks) {
+	allScenarios := append(h.scenarios(ks), h.faultScenarios(ks)...)
+	depth := 1
+	if r.Thorough() {
+		depth = 2
+	}
+	r.Bound("answered_store_errors_per_run", depth)
+	for _, kn := range kindOrder {
+		k, name := ks[kn], "fault/seq/"+kn+"/replay"
+		steps := []seqStep{{"first", k.Good}, {"replay", k.Good}, {"replay2", k.Good}}
+		items = append(items, item{name: name, weight: 40 * depth * depth * depth, run: func() { h.faultSequence(k, name, steps, depth) }})
+	}
+	for _, way := range failWays {
+		k, name := ks["code"], "fault/seq/code/failed:"+way
+		steps := []seqStep{{"bad", h.w.codeReq("CODE-A", way)}, {"good", k.Good}, {"good2", k.Good}}
+		items = append(items, item{name: name, weight: 40 * depth * depth * depth, run: func() { h.faultSequence(k, name, steps, depth) }})
+	}
+	for _, sc := range allScenarios {
 		sc := sc
 		items = append(items, item{name: sc.Name, big: sc.Big, weight: estimate(sc), run: func() { h.explore(sc, nil) }})
 	}
@@ -780,7 +1012,7 @@ func TestVerifC05(t *testing.T) {
 		for _, it := range items {
 			if it.name == rc.Item {
 				if rc.Schedule != nil {
-					for _, sc := range h.scenarios(ks) {
+					for _, sc := range allScenarios {
 						if sc.Name == rc.Item {
 							h.explore(sc, rc.Schedule)
 						}
